@@ -198,26 +198,33 @@ def c01_visual_stage(chk):
         if clause in seen:
             continue
         seen.add(clause)
-        c = cases[i]
+        try:
+            c = cases[i]
 
-        def fails(line, clause=clause):
-            cc = _run_line(line)
-            return cc is not None and any(k == clause for k, _, _ in oracle_case(cc)[0])
-        calls = [x for x in c["spec"]["calls_txt"].split(";") if x]
-        line = base.spec_with_calls(c["spec"]["line"], ";".join(calls[:ci0 + 1]))
-        if not fails(line):
-            line = c["spec"]["line"]
-        small = base.shrink_spec(line, fails, budget=30)
-        small = _shrink_dets(small, fails, budget=40)
-        cc = _run_line(small)
-        f2 = oracle_case(cc)[0] if cc else []
-        recs = [[(d["uid"], r["id"], r["len"], r["vt"]) for d, r in zip(call["dets"], call["recs"])] for call in (cc["calls"] if cc else [])]
-        chk.violation("C01:visual:" + clause, what0,
-                      {"stage": "visual_c01", "input": small, "tracker": c["spec"]["trk"],
-                       "oracle_failures": [list(x) for x in (f2 or f)[:6]],
-                       "records_per_call (detection uid, track id, length, voting)": recs,
-                       "other_failing_histories": len(failing) - 1,
-                       "replay_cmd": "./check C01 --replay <this file>   (runs: visual replay --file <spec> --notables --lax)"})
+            def fails(line, clause=clause):
+                cc = _run_line(line)
+                return cc is not None and any(k == clause for k, _, _ in oracle_case(cc)[0])
+            calls = [x for x in c["spec"]["calls_txt"].split(";") if x]
+            line = base.spec_with_calls(c["spec"]["line"], ";".join(calls[:ci0 + 1]))
+            if not fails(line):
+                line = c["spec"]["line"]
+            small = base.shrink_spec(line, fails, budget=30)
+            small = _shrink_dets(small, fails, budget=40)
+            cc = _run_line(small)
+            f2 = oracle_case(cc)[0] if cc else []
+            recs = [[(d["uid"], r["id"], r["len"], r["vt"]) for d, r in zip(call["dets"], call["recs"])] for call in (cc["calls"] if cc else [])]
+            chk.violation("C01:visual:" + clause, what0,
+                          {"stage": "visual_c01", "input": small, "tracker": c["spec"]["trk"],
+                           "oracle_failures": [list(x) for x in (f2 or f)[:6]],
+                           "records_per_call (detection uid, track id, length, voting)": recs,
+                           "other_failing_histories": len(failing) - 1,
+                           "replay_cmd": "./check C01 --replay <this file>   (runs: visual replay --file <spec> --notables --lax)"})
+        except Exception as ex:      # the shrinker / re-run must never take the check down: report the unshrunk history
+            import traceback
+            line0 = cases[i]["spec"]["line"] if "spec" in cases[i] else cases[i].get("line")
+            chk.violation("C01:visual:" + clause, what0,
+                          {"stage": "visual_c01", "input": line0, "clause": clause, "oracle_failures": [list(x) for x in f[:6]],
+                           "note": "not shrunk: " + traceback.format_exc()[-800:]})
         if len(seen) >= 3:
             break
 
